@@ -450,6 +450,10 @@ class _MappingNames:
             return "coord"
         if v == {"self._Get_sysCoord_e()"}:
             return "sys"
+        if len(v) == 1:
+            m0 = re.match(r"^np\.linalg\.norm\(np\.ptp\((\w+)\[:, :(\w+)\], axis=0\)\)$", next(iter(v)))
+            if m0 and self.kind(m0.group(1), depth + 1) == "coordElemBase" and self.kind(m0.group(2), depth + 1) == "dim":
+                return "size"             # characteristic length of the element (positive)
         if v == {"self.Get_invF_e_pg(matrixType)"} and self.vals("matrixType") == {"MatrixType.mass"}:
             return "invF"
         if len(v) == 1:
@@ -481,7 +485,7 @@ def read_eval_form(repo):
     argument / local names; outer names are identified by what they are bound to).
     Returns ('tangent' | 'iso', lineno).
        tangent :  J = x0 + (xi - xiOrigin) @ (dN(xi) @ X) - xP      (code as first found)
-       iso     :  J = N(xi) @ X - xP                                (isoparametric map)
+       iso     :  J = N(xi) @ X - xP, possibly divided by the element size  (isoparametric map)
     Anything else -> TranslateError (unknown cost function: the theorems do not apply)."""
     path = os.path.join(repo, "EasyFEA/FEM/_group_elem.py")
     tree = ast.parse(open(path).read())
@@ -507,11 +511,11 @@ def read_eval_form(repo):
             if n.id in env:
                 return env[n.id]
             k = names.kind(n.id)
-            if k in ("x0", "xi0"):
+            if k in ("x0", "xi0", "size"):
                 return k
             raise TranslateError("Eval: name %s is bound to %s" % (n.id, sorted(names.vals(n.id)) or "nothing known"))
         if isinstance(n, ast.BinOp):
-            op = {ast.Add: "+", ast.Sub: "-", ast.MatMult: "@"}.get(type(n.op))
+            op = {ast.Add: "+", ast.Sub: "-", ast.MatMult: "@", ast.Div: "/"}.get(type(n.op))
             if op is None:
                 raise TranslateError("Eval: operator %s" % type(n.op).__name__)
             return (op, sym(n.left), sym(n.right))
@@ -556,7 +560,8 @@ def read_eval_form(repo):
     iso = ("-", ("@", ("row00", "N_tild"), "X"), "xP")
     if result == tangent:
         return "tangent", ev.lineno
-    if result == iso:
+    if result == iso or result == ("/", iso, "size"):
+        # dividing the residual by the (positive) element size changes neither its zeros nor the minimiser
         return "iso", ev.lineno
     raise TranslateError("Eval: unknown cost function %r" % (result,))
 
